@@ -52,8 +52,23 @@ OPS = [
     ["M = [x, 1]", "mon.write(M[0])"],
     ["T = [i + x for i in range(3)]", "mon.write(T[2])"],
     ["for i in range(len(L)):", "    x = x + L[i]"],
+    # 18.. : the appended value lives in the list's own buffer; copies; re-binding; swaps of lists of different
+    # length followed by negative indices; lists first bound inside a nested loop; lists returned by a helper
+    ["L.append(L[-1])"],
+    ["L.append(L[0])"],
+    ["K = L", "mon.write(len(K))", "mon.write(K[-1])"],  # the copy is only read (mutation through an alias: KF-C01-list-value-semantics)
+    ["L = [x, 2, 2]"],
+    ["L = [i + 1 for i in range(2)]"],
+    ["W = [9]", "L, W = W, L", "mon.write(L[-1] + x)", "mon.write(W[-1] + x)"],
+    ["W2 = [9, 8, 7, 6, 5, 4, 3]", "L, W2 = W2, L", "mon.write(W2[-1] + x)", "mon.write(L[-2] + x)"],
+    ["for j in range(2):", "    Z = [j, x]", "    x = Z[0] + Z[-1]"],
+    ["for j in range(3):", "    Z2 = [i + j for i in range(3)]", "    mon.write(Z2[1])"],
+    ["k = 0", "while k < 2:", "    k += 1", "    Y = [k]", "    Y.append(x)", "    mon.write(Y[-1])"],
+    ["H = mk(x)", "mon.write(H[1])", "H.append(3)"],
 ]
+DEFS = ["def mk(n):", "    return [n, n + 1]"]
 CORE = [0, 2, 3, 5, 9, 10, 11, 12, 13]
+CORE3 = [0, 1, 2, 3, 5, 9, 10, 11, 12, 13, 18, 20, 21, 23, 25, 28]  # thorough: all k = 3 histories over these
 OBS = ["mon.write(x)", "mon.write(len(L))", "mon.write(L[0])", "mon.write(L[-1])"]
 
 
@@ -62,13 +77,13 @@ def build(init_i: int, seq: Sequence[int], placement: str) -> dict:
     ops = [ln for i in seq for ln in OPS[i]]
     head = ['a = analog_read("A0")', "x = a", 's = "s"']
     if placement == "setup":
-        src = common.script(head + init + ops + OBS, None, prologue=PRO)
+        src = common.script(head + init + ops + OBS, None, prologue=PRO, defs=DEFS)
         passes = 0
     elif placement == "loop":
-        src = common.script(head, init + ops + OBS, prologue=PRO)
+        src = common.script(head, init + ops + OBS, prologue=PRO, defs=DEFS)
         passes = 4
     else:  # shared: list created in setup, mutated in the loop
-        src = common.script(head + init, ops + OBS, prologue=PRO)
+        src = common.script(head + init, ops + OBS, prologue=PRO, defs=DEFS)
         passes = 4
     return {"id": f"{init_i}:{placement}:{tuple(seq)}", "src": src, "runs": [{"passes": passes, "ar": {"A0": [2]}}], "placement": placement}
 
@@ -77,12 +92,14 @@ def generate(tier: str, only=None) -> Iterator[dict]:
     n = len(OPS)
     k_full = 2
     for init_i in range(len(INITS)):
-        seqs = list(itertools.chain.from_iterable(itertools.product(range(n), repeat=r) for r in range(0, k_full + 1)))
         if tier == "thorough":
-            seqs += list(itertools.product(range(n), repeat=3))
+            seqs = list(itertools.chain.from_iterable(itertools.product(range(n), repeat=r) for r in range(0, k_full + 1)))
+            seqs += list(itertools.product(CORE3, repeat=3))
             seqs += list(itertools.product(CORE, repeat=4)) if init_i < 3 else []
         else:
-            seqs += list(itertools.product(CORE[:6], repeat=3)) if init_i in (0, 1, 4, 7) else []
+            seqs = list(itertools.chain.from_iterable(itertools.product(range(n), repeat=r) for r in range(0, 2)))
+            seqs += list(itertools.product(range(n), repeat=2)) if init_i in (0, 1, 4, 6) else []
+            seqs += list(itertools.product(CORE[:6], repeat=3)) if init_i in (0, 1) else []
         seen = set()
         for seq in seqs:
             if seq in seen:
@@ -143,7 +160,7 @@ def main(tier: str, seed: int, only=None) -> int:
     report = Report(ID, LEVEL, tier, seed)
     common.drive(report, MOD, generate(tier, only), opts={"sanitize": True, "host_timeout": 5.0}, batch_size=40,
                  bad=("violation", "transpile_crash", "transpile_timeout"))
-    report.bounds = {"inits": len(INITS), "ops": len(OPS), "sequences": "all k<=2 (+ k=3 over a 6-op core for 4 inits) quick; all k<=3 + k=4 over a 9-op core thorough", "placements": "setup / loop / shared", "passes": 4}
+    report.bounds = {"inits": len(INITS), "ops": len(OPS), "sequences": "quick: all k<=1, all k=2 for 4 inits, k=3 over a 6-op core for 2 inits; thorough: all k<=2, k=3 over a 16-op core, k=4 over a 9-op core for 3 inits", "placements": "setup / loop / shared", "passes": 4}
     report.add_sample({"script": build(4, (9, 0), "shared")["src"].splitlines()[6:]})
     return report.finish(
         rule="every history of the bounded alphabet in three placements, firmware built with ASan+UBSan and an interposed allocator, compared with CPython; distinct = distinct firmware texts",
